@@ -12,11 +12,16 @@ PROP = 'C11'
 
 # ---------------------------------------------------------------- virtual pool
 class VTask(object):
-    def __init__(self, fn, args, kwds):
-        self.fn, self.args, self.kwds = fn, args, kwds
+    """stand-in for multiprocessing.pool.AsyncResult: ready / wait / get / successful. Waiting (polling with sleep, wait() or a
+    blocking get()) is a scheduling point at which the explorer's schedule decides which tasks complete."""
+
+    def __init__(self, pool, fn, args, kwds):
+        self.pool, self.fn, self.args, self.kwds = pool, fn, args, kwds
         self.done, self.value, self.exc = False, None, None
 
     def complete(self):
+        if self.done:
+            return
         try:
             self.value = self.fn(*self.args, **self.kwds)
         except BaseException as e:      # multiprocessing re-raises in get()
@@ -26,16 +31,28 @@ class VTask(object):
     def ready(self):
         return self.done
 
-    def get(self, timeout=None):
+    def successful(self):
         if not self.done:
-            raise RuntimeError('virtual pool: get() on a task that is not ready would block')
+            raise ValueError('task is not ready')
+        return self.exc is None
+
+    def wait(self, timeout=None):
+        guard = 0
+        while not self.done:
+            guard += 1
+            if guard > 100:
+                raise RuntimeError('virtual pool: waiting does not terminate')
+            self.pool.point()
+
+    def get(self, timeout=None):
+        self.wait()
         if self.exc is not None:
             raise self.exc
         return self.value
 
 
 class VirtualPool(object):
-    """schedule: list of sets of task indices; set k completes at the k-th scheduling point (pool exit completes the rest)"""
+    """schedule: list of sets of task indices; set k completes at the k-th scheduling point (later points complete the rest)"""
     current = None
 
     def __init__(self, schedule_source):
@@ -45,7 +62,7 @@ class VirtualPool(object):
         self.step = 0
         self.sleeps = 0
 
-    def __call__(self, processes=None):
+    def __call__(self, processes=None, *a, **k):
         self.processes = processes
         return self
 
@@ -55,10 +72,52 @@ class VirtualPool(object):
     def __exit__(self, *a):
         return False
 
-    def apply_async(self, fn, args=(), kwds=None):
-        t = VTask(fn, args, kwds or {})
+    def close(self):
+        pass
+
+    def join(self):
+        for t in self.tasks:
+            t.wait()
+
+    def terminate(self):
+        pass
+
+    def apply_async(self, fn, args=(), kwds=None, callback=None, error_callback=None):
+        t = VTask(self, fn, args, kwds or {})
         self.tasks.append(t)
         return t
+
+    def apply(self, fn, args=(), kwds=None):
+        return self.apply_async(fn, args, kwds).get()
+
+    def starmap_async(self, fn, iterable, chunksize=None):
+        ts = [self.apply_async(fn, tuple(a)) for a in iterable]
+
+        class Many(object):
+            def ready(s):
+                return all(t.ready() for t in ts)
+
+            def wait(s, timeout=None):
+                for t in ts:
+                    t.wait()
+
+            def get(s, timeout=None):
+                return [t.get() for t in ts]
+        return Many()
+
+    def map_async(self, fn, iterable, chunksize=None):
+        return self.starmap_async(fn, [(a,) for a in iterable])
+
+    def starmap(self, fn, iterable, chunksize=None):
+        return self.starmap_async(fn, iterable).get()
+
+    def map(self, fn, iterable, chunksize=None):
+        return self.map_async(fn, iterable).get()
+
+    def imap(self, fn, iterable, chunksize=1):
+        ts = [self.apply_async(fn, (a,)) for a in iterable]
+        for t in ts:
+            yield t.get()
 
     def point(self):
         """a scheduling point: the next block of the schedule completes (at least one task: fairness)"""
@@ -290,6 +349,8 @@ def explore_batches(shard):
                     try:
                         res, ntasks = run_batch(list(names), pool, max_step, processes, mcs, sched)
                     except Exception as e:
+                        if boot.harness_limit(e):
+                            raise boot.HarnessError(f'the emulation of parsing.pyx cannot express what the file does: {e!r}')
                         st.violation('batch/raised', f'valid batch raised {e!r}', **base)
                         continue
                     st.count('executions')
